@@ -431,6 +431,22 @@ def check_dirs(ctx):
                 ok = True
             elif fb is fa and it in acc_names:
                 ok = True
+            elif fb is not fa and it in fb.params and any(
+                    isinstance(c, ast.Call) and prog.callee_of(fa, c) is fb
+                    for c in ast.walk(fa.node)):
+                # a helper that is handed the collected directories: every
+                # call passes the accumulated list for that parameter
+                idx = fb.params.index(it) - (
+                    1 if fb.cls is not None and not fb.is_static else 0)
+                calls = [c for c in ast.walk(fa.node) if isinstance(
+                    c, ast.Call) and prog.callee_of(fa, c) is fb]
+                def passed(c):
+                    for k in c.keywords:
+                        if k.arg == it:
+                            return U(k.value)
+                    return U(c.args[idx]) if 0 <= idx < len(c.args) else None
+                ok = bool(calls) and all(passed(c) in acc_names
+                                         for c in calls)
             elif returns_acc:
                 # iterates the list returned by the collecting helper
                 for a in walk_no_nested(fb.node):
